@@ -464,6 +464,90 @@ impl Visitor<()> for Facts {
     }
 }
 
+/// What xform_resolve_late_bound_type_initializer looks at, in the order of the library's own traversal:
+///   TD,name,kind,pos   a data type declaration (enum subrange simple array struct structinit string latebound) or a function block (fb)
+///   IK,kind,type|-,pos an initializer (kind as in the VA facts; for `late` the type name and where it is written)
+struct TypeFacts {
+    out: Vec<String>,
+}
+
+fn init_kind(node: &InitialValueAssignmentKind) -> (&'static str, String, usize) {
+    match node {
+        InitialValueAssignmentKind::None(_) => ("none", "-".to_string(), 0),
+        InitialValueAssignmentKind::Simple(si) => ("simple", hx(&si.type_name.name.original), si.type_name.name.span.start),
+        InitialValueAssignmentKind::String(_) => ("string", "-".to_string(), 0),
+        InitialValueAssignmentKind::EnumeratedValues(_) => ("enumvalues", "-".to_string(), 0),
+        InitialValueAssignmentKind::EnumeratedType(et) => ("enumtype", hx(&et.type_name.name.original), et.type_name.name.span.start),
+        InitialValueAssignmentKind::FunctionBlock(fb) => ("fb", hx(&fb.type_name.name.original), fb.type_name.name.span.start),
+        InitialValueAssignmentKind::Subrange(_) => ("subrange", "-".to_string(), 0),
+        InitialValueAssignmentKind::Structure(st) => ("struct", hx(&st.type_name.name.original), st.type_name.name.span.start),
+        InitialValueAssignmentKind::Array(_) => ("array", "-".to_string(), 0),
+        InitialValueAssignmentKind::LateResolvedType(t) => ("late", hx(&t.name.original), t.name.span.start),
+    }
+}
+
+impl Visitor<()> for TypeFacts {
+    type Value = ();
+
+    fn visit_data_type_declaration_kind(&mut self, node: &DataTypeDeclarationKind) -> Result<(), ()> {
+        let (name, kind) = match node {
+            DataTypeDeclarationKind::Enumeration(n) => (&n.type_name, "enum"),
+            DataTypeDeclarationKind::Subrange(n) => (&n.type_name, "subrange"),
+            DataTypeDeclarationKind::Simple(n) => (&n.type_name, "simple"),
+            DataTypeDeclarationKind::Array(n) => (&n.type_name, "array"),
+            DataTypeDeclarationKind::Structure(n) => (&n.type_name, "struct"),
+            DataTypeDeclarationKind::StructureInitialization(n) => (&n.type_name, "structinit"),
+            DataTypeDeclarationKind::String(n) => (&n.type_name, "string"),
+            DataTypeDeclarationKind::LateBound(n) => (&n.data_type_name, "latebound"),
+        };
+        self.out.push(format!("TD,{},{},{}", hx(&name.name.original), kind, name.name.span.start));
+        node.recurse_visit(self)
+    }
+    fn visit_function_block_declaration(&mut self, node: &FunctionBlockDeclaration) -> Result<(), ()> {
+        self.out.push(format!("TD,{},fb,{}", hx(&node.name.original), node.name.span.start));
+        node.recurse_visit(self)
+    }
+    fn visit_initial_value_assignment_kind(&mut self, node: &InitialValueAssignmentKind) -> Result<(), ()> {
+        let (k, t, p) = init_kind(node);
+        self.out.push(format!("IK,{},{},{}", k, t, p));
+        node.recurse_visit(self)
+    }
+}
+
+/// parse every file, join the libraries and apply the transformations before xform_resolve_late_bound_type_initializer;
+/// emit the type facts, apply that transformation, and emit the type facts of its result (or its diagnostics)
+fn op_latebound(case: &Value) -> Value {
+    let (libs, errs) = parse_files(case);
+    let mut library = Library::new();
+    for (_, l) in libs.iter() {
+        library = library.extend(l.clone());
+    }
+    for x in ["xform_toposort_declarations", "xform_resolve_late_bound_data_decl", "xform_resolve_late_bound_expr_kind"] {
+        match ironplc_analyzer::verif_hooks::xform(x, library) {
+            Some(Ok(l)) => library = l,
+            Some(Err(ds)) => {
+                let ds: Vec<Value> = ds.iter().map(diag_json).collect();
+                return json!({"parse_errs": errs, "earlier_xform": x, "xform_diags": ds});
+            }
+            None => return json!({"harness_error": format!("unknown transformation {}", x)}),
+        }
+    }
+    let mut before = TypeFacts { out: vec![] };
+    let _ = before.walk(&library);
+    match ironplc_analyzer::verif_hooks::xform("xform_resolve_late_bound_type_initializer", library) {
+        Some(Ok(l)) => {
+            let mut after = TypeFacts { out: vec![] };
+            let _ = after.walk(&l);
+            json!({"parse_errs": errs, "before": before.out, "after": after.out})
+        }
+        Some(Err(ds)) => {
+            let ds: Vec<Value> = ds.iter().map(diag_json).collect();
+            json!({"parse_errs": errs, "before": before.out, "diags": ds})
+        }
+        None => json!({"harness_error": "unknown transformation"}),
+    }
+}
+
 const FACT_RULES: [&str; 8] = [
     "rule_var_decl_const_initialized",
     "rule_var_decl_const_not_fb",
@@ -670,6 +754,7 @@ fn run_case(case: &Value) -> Value {
         "project" => op_project(case),
         "events" => op_events(case),
         "facts" => op_facts(case),
+        "latebound" => op_latebound(case),
         "roundtrip" => op_roundtrip(case),
         "render" => op_render(case),
         "respell" => op_respell(case),
